@@ -16,23 +16,6 @@ open V V.Gen
 
 /-! ### Object -/
 
-/-- what each outgoing relation of `Object` demands of every non-missing cell -/
-def objPred : Ty → Cell → Bool
-  | .String => fun x => x.isStr
-  | .Date => fun x => x.cls == "date"
-  | .Time => fun x => x.cls == "time"
-  | .URL => fun x => x.isParseResult
-  | .UUID => fun x => x.isUUID
-  | .EmailAddress => fun x => x.isFQDA
-  | .Path => fun x => x.isPurePath
-  | .Geometry => fun x => x.isGeom
-  | .IPAddress => fun x => x.isIP
-  | .Boolean => fun x => x.inBoolSet == .ok true
-  | _ => fun _ => false
-
-def objChildren : List Ty :=
-  [.String, .Date, .Time, .URL, .UUID, .EmailAddress, .Path, .Geometry, .IPAddress, .Boolean]
-
 /-- acceptance of the relation `Object → d` (identity: membership of `d`; inference: the guard) -/
 def acceptsObj (d : Ty) (c : Column) : Prop :=
   match d with
@@ -159,24 +142,6 @@ example : HeadExcl (Cell.ofDate 737425) := by
 
 
 /-! ### String -/
-
-def isAbsO (v : Outcome (Bool × String)) : Bool := match v with | .ok (b, _) => b | _ => false
-
-/-- what each inference relation out of `String` demands of the parser results of every non-missing cell -/
-def strPred : Ty → StrFacts → Bool
-  | .Boolean => fun f => f.boolKey.isSome
-  | .Float => fun f => f.floatVal.isOk
-  | .Geometry => fun f => match f.wkt with | .ok (b, _) => b | _ => false
-  | .IPAddress => fun f => f.ip.isOk
-  | .Path => fun f => isAbsO f.winAbs || isAbsO f.posixAbs
-  | .URL => fun f => match f.url with | .ok (n, s, _) => n && s | _ => false
-  | .UUID => fun f => f.uuid.isOk
-  | .EmailAddress => fun f => f.email.isOk
-  | .Complex => fun f => f.complexVal.isOk
-  | _ => fun _ => false
-
-/-- the String relations whose test is a per-element parser -/
-def strParsers : List Ty := [.Boolean, .Float, .Geometry, .IPAddress, .Path, .URL, .UUID, .EmailAddress, .Complex]
 
 def acceptsStr (o : ColOracle) (d : Ty) (c : Column) : Prop := ∃ g, guard o .String d = some g ∧ g c = .ok true
 
